@@ -12,6 +12,8 @@ A table is sent as the sequence of API calls that builds it:
 * `c17csv <groups> op*`                → `ok <hex csv>`
 * `c17mon <k> <digits> <groups> <hex real text> op*` → `ok` | `skip <why>` | `inexact <row>` | `fail <predicate> …`
 * `c17csvmon <groups> <hex real csv> op*` → `ok` | `fail`
+* `c17lines <n> <hex real text>` → `ok` | `fail <predicate>` (the part of the property that needs no table: the output is lines
+  plus a final blank line, all lines of one width, `n+1` character columns carry a separator on every line)
 * `c17num <k> <digits> <hex decimal> <hex cell text>` → `ok` | `inexact` | `fail` (one numeric cell text against the predicate)
 -/
 namespace Knut.Driver.C17
@@ -92,6 +94,15 @@ def monitorText (r : Renderer) (t : Table) (out : List Char) : String :=
       else if conformsAll false r W t.rows ls then s!"inexact {firstBadRow true r W t.rows ls 0}"
       else s!"fail conformsAll row {firstBadRow false r W t.rows ls 0}"
 
+/-- the statements about the lines alone (`n` = number of columns the report has) -/
+def monitorLines (n : Nat) (out : List Char) : String :=
+  match tableLines out with
+  | none => "fail tableLines"
+  | some ls =>
+    if !rectLines ls then "fail rectLines"
+    else if !alignedOK n ls then "fail alignedOK"
+    else "ok"
+
 def handleStr (fields : List String) : String :=
   match fields with
   | "c17text" :: k :: digits :: groups :: ops =>
@@ -112,6 +123,10 @@ def handleStr (fields : List String) : String :=
   | "c17csvmon" :: groups :: out :: ops =>
     match build groups ops, unhexStr out with
     | some t, some out => if csvTextOK t out.toList then "ok" else "fail csvTextOK"
+    | _, _ => "bad-op"
+  | ["c17lines", n, out] =>
+    match n.toNat?, unhexStr out with
+    | some n, some out => monitorLines n out.toList
     | _, _ => "bad-op"
   | ["c17num", k, digits, d, cell] =>
     match parseFlags k digits, (unhexStr d).bind parseDec, unhexStr cell with
